@@ -5,6 +5,7 @@ import (
 	"encoding/json"
 	"fmt"
 	"io"
+	"net"
 	"net/http"
 	"sort"
 	"strings"
@@ -50,6 +51,11 @@ type rawUpstream struct {
 }
 
 func dialRaw(addr, ep, name, token string) (*rawUpstream, error) {
+	return dialRawWith(addr, ep, name, token, nil)
+}
+
+// dialRawWith: serve handles every accepted stream (nil = stamp protocol).
+func dialRawWith(addr, ep, name, token string, serve func(net.Conn)) (*rawUpstream, error) {
 	h := http.Header{}
 	if token != "" {
 		h.Set("Authorization", "Bearer "+token)
@@ -88,7 +94,11 @@ func dialRaw(addr, ep, name, token string) (*rawUpstream, error) {
 				r.mu.Unlock()
 				return
 			}
-			go su.ServeConn(c)
+			if serve != nil {
+				go serve(c)
+			} else {
+				go su.ServeConn(c)
+			}
 		}
 	}()
 	return r, nil
